@@ -120,6 +120,9 @@ type Rec struct {
 	// Hook runs inside the callback after the entry has been logged (fault injection,
 	// unsubscribe-from-inside, stalls). It runs on the delivering thread.
 	Hook func(r *Rec, idx int, e Ev)
+	// Raw makes the check helpers subscribe this recorder through RawObserver (an ro.Observer
+	// implemented by hand, without ro.NewObserver's own closed-status guard).
+	Raw  bool
 	snap [][]byte
 }
 
@@ -230,6 +233,40 @@ func Observer[T any](r *Rec) ro.Observer[T] {
 	)
 }
 
+// RawObserver is an observer that implements ro.Observer itself instead of going through
+// ro.NewObserver: it has no status guard of its own, so whatever the library hands to it is recorded,
+// also after a terminal notification (ro.NewObserver's implementation would silently drop that).
+func RawObserver[T any](r *Rec) ro.Observer[T] { return &rawObserver[T]{r: r} }
+
+type rawObserver[T any] struct {
+	r      *Rec
+	status int32 // 0 open, 1 errored, 2 completed (what IsClosed & co. report; never used to filter)
+}
+
+//go:norace
+func (o *rawObserver[T]) set(v int32) { o.status = v }
+
+//go:norace
+func (o *rawObserver[T]) get() int32 { return o.status }
+
+func (o *rawObserver[T]) Next(v T)      { o.NextWithContext(context.Background(), v) }
+func (o *rawObserver[T]) Error(e error) { o.ErrorWithContext(context.Background(), e) }
+func (o *rawObserver[T]) Complete()     { o.CompleteWithContext(context.Background()) }
+func (o *rawObserver[T]) NextWithContext(ctx context.Context, v T) {
+	o.r.on(ctx, Ev{K: N, V: v})
+}
+func (o *rawObserver[T]) ErrorWithContext(ctx context.Context, err error) {
+	o.r.on(ctx, Ev{K: E, Err: err})
+	o.set(1)
+}
+func (o *rawObserver[T]) CompleteWithContext(ctx context.Context) {
+	o.r.on(ctx, Ev{K: C})
+	o.set(2)
+}
+func (o *rawObserver[T]) IsClosed() bool    { return o.get() != 0 }
+func (o *rawObserver[T]) HasThrown() bool   { return o.get() == 1 }
+func (o *rawObserver[T]) IsCompleted() bool { return o.get() == 2 }
+
 // Add appends an event directly (used by Tap-style probes that are not observers).
 //
 //go:norace
@@ -324,18 +361,19 @@ func SameTrace(a, b []Ev) bool {
 
 // Src is the instrumentation of one source observable.
 type Src struct {
-	Name      string
-	Subs      int
-	Teardowns int
-	Live      int
-	MaxLive   int
-	SubCtxNil bool
-	SubMarks  []interface{}
-	SubAt     []uint64
-	TearAt    []uint64
-	Emitted   int
-	AfterTear int // notifications the harness pushed while nobody was subscribed
-	MaxOpen   int // pushed sources: max number of subscriptions open at once (a closed subscription whose teardown is still pending does not count)
+	Name        string
+	Subs        int
+	Teardowns   int
+	Live        int
+	MaxLive     int
+	SubCtxNil   bool
+	SubMarks    []interface{}
+	SubAt       []uint64
+	TearAt      []uint64
+	Emitted     int
+	AfterTear   int  // notifications the harness pushed while nobody was subscribed
+	PanicOnTear bool // the teardown of this source panics (after it has been counted)
+	MaxOpen     int  // pushed sources: max number of subscriptions open at once (a closed subscription whose teardown is still pending does not count)
 }
 
 func NewSrc(name string) *Src { return &Src{Name: name} }
@@ -367,6 +405,9 @@ func (s *Src) onTear() {
 	s.Teardowns++
 	s.Live--
 	s.TearAt = append(s.TearAt, vrt.Tick())
+	if s.PanicOnTear {
+		panic(fmt.Errorf("teardown of %s: %w", s.Name, ErrCb))
+	}
 }
 
 //go:norace
@@ -426,6 +467,19 @@ func Script[T any](s *Src, m Mode, word []Ev) ro.Observable[T] {
 	return mk(m, func(ctx context.Context, d ro.Observer[T]) ro.Teardown {
 		s.onSub(ctx)
 		for i, e := range word {
+			s.emitted()
+			Play(ctx, d, i, e)
+		}
+		return s.onTear
+	})
+}
+
+// ScriptFn is Script with the word chosen at each subscription (a source whose successive
+// subscriptions behave differently: fails the first time, succeeds the second).
+func ScriptFn[T any](s *Src, m Mode, word func() []Ev) ro.Observable[T] {
+	return mk(m, func(ctx context.Context, d ro.Observer[T]) ro.Teardown {
+		s.onSub(ctx)
+		for i, e := range word() {
 			s.emitted()
 			Play(ctx, d, i, e)
 		}
